@@ -6,6 +6,7 @@ import (
 	"encoding/json"
 	"fmt"
 	"go.uber.org/dig"
+	"runtime"
 )
 
 // Request is one input line.
@@ -262,6 +263,8 @@ func asUserPanic(v interface{}) (UserPanic, bool) {
 		return p, true
 	case UserPanicErr:
 		return p.UserPanic, true
+	case UserPanicRt:
+		return p.UserPanic, true
 	}
 	return UserPanic{}, false
 }
@@ -281,9 +284,25 @@ var subCycleErr = func() error {
 	return c.Provide(func(*subA) *subB { return nil })
 }()
 
+// UserPanicRt is a panic value of the kind the Go runtime raises: it implements runtime.Error.
+type UserPanicRt struct{ UserPanic }
+
+func (p UserPanicRt) Error() string {
+	return fmt.Sprintf("runtime error of function %d, execution %d", p.Fn, p.X)
+}
+
+// RuntimeError makes UserPanicRt a runtime.Error.
+func (UserPanicRt) RuntimeError() {}
+
+var _ runtime.Error = UserPanicRt{}
+
 // panicValue picks the form of the panic value of execution x of function f.
 func panicValue(f, x int) interface{} {
 	up := UserPanic{Fn: f, X: x}
+	if (f+x)%4 == 3 {
+		// what the Go runtime raises (a nil map write, an index out of range): a runtime.Error
+		return UserPanicRt{up}
+	}
 	switch (f + x) % 3 {
 	case 1:
 		return UserPanicErr{up, subMissingErr}
